@@ -295,6 +295,8 @@ impl C11 {
         let blk = tape::std_block(0x00, &[0u8; 17]);
         e.load_tape(Tape::Tap(AnyAsset::Sim(SimAsset::plain(tape::make_tap(&[blk]))))).map_err(|x| Fail::new("C11.load_tape", "", format!("{:?}", x)))?;
         e.play_tape();
+        // whatever the program last wrote to the ULA (border, MIC, speaker bit), the EAR input is the tape
+        e.verif_bus().write_io(0x00FE, (sc.get("port") as u8).wrapping_mul(29) & 0x1F);
         let f = cfg.frame_len() as u64;
         let frames = sc.get("frames").clamp(4, 60) as u64;
         let nth = sc.get("nth").clamp(2, 40) as u64;
